@@ -6,7 +6,7 @@
 (* A "state" is one case and the invariants are the property evaluated on  *)
 (* that case.  Three families, selected by INIT/NEXT of the cfg:           *)
 (*   InitArith/Next : every coded length L, accepted or not (integers)     *)
-(*   InitBytes/NextBytes : symbolic payloads (length x last three bytes)        *)
+(*   InitBytes/NextBytes : symbolic payloads (length x last 3 bytes)       *)
 (*   InitCases/NextCases : shred + deshred cases (variant x slice x held   *)
 (*               shape x failure injection); the initial states cut the    *)
 (*               case space into seeds, the cases are their successors;    *)
